@@ -113,7 +113,7 @@ def required(tier):
         "cli_equal_text_exact_f32": 1000, "cli_afprior_checked": 6000, "cli_afprior_from_tag": 3500, "cli_noa_records": 4000,
         "cli_af0_records": 700, "cli_records_after_unusable": 8000, "cli_dead_allele_records": 2000, "cli_trailing_dead_records_mcmc": 400,
         "cli_gt_checked": 30000, "cli_posterior_zero_checked": 15000, "cli_gp_zero_checked": 6000, "cli_refmasked_records": 5000,
-        "cli_all_alts_removed_records": 3000, "cli_wellformed_checked": 11000,
+        "cli_all_alts_removed_records": 3000, "cli_wellformed_checked": 11000, "cli_runs_inbred": 600,
     }
 
 
@@ -504,6 +504,11 @@ def build_dataset(rng, root):
     with open(os.path.join(root, "parents.txt"), "w") as fh:
         fh.write("S1\t.\t.\nS2\t.\t.\nS3\tS1\tS2\n")
     ds.parents_file = os.path.join(root, "parents.txt")
+    # per-sample inbreeding coefficients (call / call-exact runs use none, a scalar or this file)
+    ds.inbreeding_file = os.path.join(root, "inbreeding.txt")
+    with open(ds.inbreeding_file, "w") as fh:
+        for s_, v in zip(ds.samples, (0.05, 0.4, 0.2)):
+            fh.write("%s\t%r\n" % (s_, v))
     return ds
 
 
@@ -537,7 +542,7 @@ def build_hap_records(rng, ds):
     single = [i for i, L in enumerate(ds.loci) if len(L["snvs"]) >= 1]
     pick = list(multi) + [i for i in single if i not in multi]
     # roles: boundary (0.7,0.2,0.1), trailing-zero, all-zero, no-alt, refmasked, refmasked-no-alt
-    for role, idx in zip(["boundary", "last-zero", "last-zero-2", "all-zero"], pick):
+    for role, idx in zip(["boundary", "last-zero", "ref-zero", "last-zero-2", "all-zero"], pick):
         roles[idx] = role
     rest = [i for i in range(len(ds.loci)) if i not in roles]
     for role in ["refmasked-no-alt", "no-alt", "refmasked"]:
@@ -546,7 +551,7 @@ def build_hap_records(rng, ds):
             roles[rest.pop(0)] = role
     for i, L in enumerate(ds.loci):
         role = roles.get(i, "random")
-        want = {"boundary": int(rng.integers(2, 5)), "last-zero": int(rng.integers(2, 5)), "last-zero-2": int(rng.integers(1, 4)),
+        want = {"boundary": int(rng.integers(2, 5)), "last-zero": int(rng.integers(2, 5)), "last-zero-2": int(rng.integers(1, 4)), "ref-zero": int(rng.integers(1, 4)),
                 "all-zero": int(rng.integers(1, 4)), "no-alt": 0, "refmasked-no-alt": 0, "refmasked": int(rng.integers(1, 5))}.get(role, int(rng.integers(0, 6)))
         alts = locus_alts(rng, ds, L, want)
         r = {"contig": L["contig"], "pos0": L["start"], "id": L["name"], "ref": ds.contigs[L["contig"]][L["start"]:L["stop"]], "alts": alts, "role": role}
@@ -557,6 +562,9 @@ def build_hap_records(rng, ds):
             forced = {"tokens": {"AFP": (base + ["0.05", "0.15"])[:n]}, "refmasked": False}
         elif role in ("last-zero", "last-zero-2"):
             forced = {"AFP": "last-zero", "WT": "last-zero", "RC": "last-zero", "refmasked": False}
+        elif role == "ref-zero":
+            # the reference has prior exactly 0 without being flagged REFMASKED (reads of the samples may well carry it)
+            forced = {"AFP": "ref-zero", "WT": "ref-zero", "RC": "ref-zero", "refmasked": False}
         elif role == "all-zero":
             forced = {"AFP": "all-zero", "WT": "all-zero", "RC": "all-zero"}
         elif role in ("refmasked", "refmasked-no-alt"):
@@ -601,7 +609,8 @@ def plan_runs(rng, recs):
     for k, (tag, filt) in enumerate(opts):
         for prog in PROGRAMS:
             runs.append({"program": prog, "tag": tag, "filter": list(filt) if filt else None, "report": "both" if (k + PROGRAMS.index(prog)) % 3 == 0 else "format",
-                         "mcmc_seed": int(rng.integers(1, 10**6))})
+                         "mcmc_seed": int(rng.integers(1, 10**6)),
+                         "inbreeding": None if prog == "call-pedigree" else [None, "0.1", "file", "0.3"][(k + 2 * PROGRAMS.index(prog)) % 4]})
     return runs
 
 
@@ -615,6 +624,8 @@ def argv_for(ds, hap_path, run):
         a += ["--prior-frequencies", run["tag"]]
     if run["filter"] is not None:
         a += ["--filter-input-haplotypes", "%s%s%s" % tuple(run["filter"])]
+    if run.get("inbreeding"):
+        a += ["--inbreeding", ds.inbreeding_file if run["inbreeding"] == "file" else run["inbreeding"]]
     a += REPORT_BOTH if run["report"] == "both" else REPORT_FORMAT
     return a
 
@@ -766,6 +777,8 @@ def exec_run(ds, recs, hap_path, run, col, payload):
     cli.relax_warnings()
     col.count("cli_runs")
     col.count("cli_runs_" + prog)
+    if run.get("inbreeding"):
+        col.count("cli_runs_inbred")
     int_tag = tag is not None and FIELD[tag]["Type"] == "Integer"
     if int_tag:
         col.count("cli_integer_prior_runs")
